@@ -53,6 +53,26 @@ theorem separateSO_is_separated (long : Bool) (args : List Str) :
     isSeparatedSO long (separateSO long args) = true :=
   separateSO_isSeparated long args.length args (Nat.le_refl _)
 
+/-- ★ The shell's command line: for the long options that take an argument (`--profile`, `--rcfile` and their
+    abbreviations) `--name=ARG` means `--name ARG` **for every ARG** — empty, starting or ending with `=`,
+    containing any number of `=`: the name ends at the FIRST `=` and everything behind it is the argument.
+    At any point of the option loop (any `portable` state `p`, any `Run` built so far), for every rest. -/
+theorem sh_long_eq_arg_anywhere (nm : Names) (p : Bool) (r : Run) (name arg : Str) (ctor : Str → ShLong) (rest : List Str)
+    (hname : name ≠ []) (heq : '=' ∉ name) (hctor : nonShell name = some (true, ctor))
+    (h1 : nm.parseLong (name ++ '=' :: arg) = .noSuch) (h2 : nm.parseLong name = .noSuch) :
+    shLoop nm p r (('-' :: '-' :: (name ++ '=' :: arg)) :: rest) =
+      shLoop nm p r (('-' :: '-' :: name) :: arg :: rest) :=
+  shLoop_long_eq_arg nm p r name arg ctor rest hname heq hctor h1 h2
+
+/-- ★ … and as the first argument of the whole command line -/
+theorem sh_long_eq_arg (nm : Names) (arg0 name arg : Str) (ctor : Str → ShLong) (rest : List Str)
+    (hname : name ≠ []) (heq : '=' ∉ name) (hctor : nonShell name = some (true, ctor))
+    (h1 : nm.parseLong (name ++ '=' :: arg) = .noSuch) (h2 : nm.parseLong name = .noSuch) :
+    shParse nm (arg0 :: ('-' :: '-' :: (name ++ '=' :: arg)) :: rest) =
+      shParse nm (arg0 :: ('-' :: '-' :: name) :: arg :: rest) := by
+  simp only [shParse]
+  rw [shLoop_long_eq_arg nm false _ name arg ctor rest hname heq hctor h1 h2]
+
 /-! ## non-vacuity -/
 
 /-- the answers of yash_env::option for `e`, `u`, `errexit`, `nounset`, `err` -/
@@ -110,5 +130,18 @@ example : killParse exSig false 15 ['-' :: 's' :: "INT".toList, ['-','l']] = .er
 
 example : isSeparatedSO true [['-','e','u'], ['-','-','e','r','r']] = false := by decide
 example : isSeparatedSO true (separateSO true [['-','e','u','o','x'], ['-','-','e','r','r']]) = true := by decide
+
+/-- `sh --rc=/etc/mode=login/rc=` ≡ `sh --rc /etc/mode=login/rc=`: the argument keeps all its `=` -/
+example : shParse exShNames [['s','h'], '-' :: '-' :: "rc=/etc/mode=login/rc=".toList, ['x']] =
+    shParse exShNames [['s','h'], ['-','-','r','c'], "/etc/mode=login/rc=".toList, ['x']] :=
+  sh_long_eq_arg exShNames ['s','h'] ['r','c'] "/etc/mode=login/rc=".toList ShLong.rcfile [['x']] (by decide) (by decide)
+    (by rfl) (by decide) (by decide)
+example : shParse exShNames [['s','h'], '-' :: '-' :: "rc=/etc/mode=login/rc=".toList, ['x']] =
+    .ok (.run { source := .file ['x'], rcfile := .file "/etc/mode=login/rc=".toList,
+                options := [("posixlycorrect".toList, true)], arg0 := ['x'], params := [] }) := by rfl
+example : shParse exShNames [['s','h'], '-' :: '-' :: "profile==".toList] =
+    shParse exShNames [['s','h'], "--profile".toList, ['=']] :=
+  sh_long_eq_arg exShNames ['s','h'] "profile".toList ['='] ShLong.profile [] (by decide) (by decide) (by rfl)
+    (by decide) (by decide)
 
 end YashModel.Args.Bespoke
